@@ -267,6 +267,18 @@ func VerifH_C05_reverted_retry() {
 		return ok
 	}
 	vapi.Assert("retry.x-not-pooled-while-invalid", !inPool(xID))
+	// re-broadcasting it now is refused as invalid - never reported as already
+	// known, which only a pooled transaction is
+	{
+		var known bool
+		var rerr error
+		if useV2 {
+			known, rerr = c.m.AddV2PoolTransactions(c.m.Tip(), []types.V2Transaction{x2})
+		} else {
+			known, rerr = c.m.AddPoolTransactions([]types.Transaction{x1})
+		}
+		vapi.Assert("retry.known-only-if-pooled", !known && rerr != nil)
+	}
 	// the conflicting Y is submitted and accepted
 	var err error
 	if useV2 {
@@ -283,4 +295,48 @@ func VerifH_C05_reverted_retry() {
 	vapi.Assert("retry.accepted-set-outlives-the-stale-transaction", inPool(yID))
 	vapi.Assert("retry.stale-conflicting-transaction-stays-out", !inPool(xID))
 	vapi.Reach("kept")
+}
+
+// VerifH_C05_rebroadcast: a transaction confirmed on a branch that is then
+// abandoned stays around as a stale copy (proofs of the old branch) that fails
+// every revalidation; when its sender broadcasts it again with its original
+// basis it is accepted and retrievable - "known" is only ever said of
+// transactions that are in the pool.
+//
+//verif:harness prop=C05,C14 tier=quick replay=interp z3timeout=400 require=rebroadcast bounds="b0 <- e <- b1 (confirms X, whose pooled proof was moved by e); a heavier 3-block fork from b0; X broadcast again with basis b0"
+func VerifH_C05_rebroadcast() {
+	newAbsPool()
+	w := &poolWorld{c: newAbsChain(), next: 1}
+	c := w.c
+	b0 := c.newBlock(0, true)
+	vapi.Assert("build.block", c.m.AddBlocks([]types.Block{b0}) == nil)
+	basis := c.m.Tip()
+	x := newV2(20, nil, 5)
+	_, err := c.m.AddV2PoolTransactions(basis, []types.V2Transaction{x})
+	vapi.Assert("build.pool", err == nil)
+	e := w.v2Block()
+	vapi.Assert("build.e", c.m.AddBlocks([]types.Block{e}) == nil && c.m.Tip().ID == e.ID())
+	pooled, ok := c.m.V2PoolTransaction(x.ID())
+	vapi.Assert("build.pooled", ok)
+	b1 := w.v2Block(pooled)
+	vapi.Assert("build.b1", c.m.AddBlocks([]types.Block{b1}) == nil && c.m.Tip().ID == b1.ID())
+	// the pool is looked at while X is confirmed, so the pooled copy is gone
+	// and only the block's copy (with proofs for e's state) can come back
+	_, ok = c.m.V2PoolTransaction(x.ID())
+	vapi.Assert("rebroadcast.confirmed-left-the-pool", !ok)
+	f1 := c.newBlock(b0.Nonce, true)
+	f2 := c.newBlock(f1.Nonce, true)
+	f3 := c.newBlock(f2.Nonce, true)
+	vapi.Assume(times5(c.totalWork(f3.Nonce)) > times5(c.totalWork(b1.Nonce))+absW.diff[b1.Nonce])
+	vapi.Assert("rebroadcast.fork", c.m.AddBlocks([]types.Block{f1, f2, f3}) == nil && c.m.Tip().ID == f3.ID())
+	// the reverted block's copy carries proofs for e's state; in the abstract
+	// accumulator these never verify on the other branch
+	_, stillThere := c.m.V2PoolTransaction(x.ID())
+	vapi.Assert("build.stale-copy-not-pooled", !stillThere)
+	known, err := c.m.AddV2PoolTransactions(basis, []types.V2Transaction{x})
+	_, got := c.m.V2PoolTransaction(x.ID())
+	vapi.Assert("rebroadcast.accepted", err == nil)
+	vapi.Assert("rebroadcast.known-only-if-pooled", !known || got)
+	vapi.Assert("rebroadcast.retrievable", err != nil || got)
+	vapi.Reach("rebroadcast")
 }
